@@ -1,4 +1,20 @@
-//! C15 probe (temporary first version)
+//! C15 — modules: evaluated once, cycles rejected, reloads never stale.
+//!
+//! Runs edit/evaluate histories over small module graphs on ONE long-lived VM per history and
+//! compares every evaluation with (1) a fresh VM that is given the latest sources (the property
+//! itself), (2) the extracted Coq model `coq/extract/c15` (same line format) and (3) a per-module
+//! counter of body evaluations (extern function `tick`) — at most once between two edits.
+//! Histories run in child processes (this binary re-invoked with `child`), several in parallel,
+//! under a watchdog so that a hang (cycle not rejected) or an abort is attributed to one history.
+//!
+//! Output files in --out:
+//!   model_in.txt       `spec|<history>` one per line (model: add_module always starts a revision)
+//!   model_in_asis.txt  `asis|<history>` (model of add_module as it stands: Vacant entry, no revision)
+//!   impl_out.txt       one line per history: `e<m> L=<res>/<ran> F=<res>/<ran> | ...`
+//!   cases.txt          the histories (`set 1 I 10 2,3|eval 1|...`)
+//!   violations.json    property violations found by the harness itself (stale, evaluated-twice,
+//!                      cycle chain, hang, crash) with the history index
+//!   stats.json
 #[macro_use]
 extern crate gluon_vm;
 
@@ -8,7 +24,14 @@ use gluon::vm::thread::Thread;
 use gluon::vm::types::VmInt;
 use gluon::vm::ExternModule;
 use gluon::ThreadExt;
+use gvh::out::{fnv, Args, Hist};
+use gvh::rng::Rng;
+use std::io::{BufRead, Write};
 use std::sync::atomic::{AtomicU64, Ordering};
+
+const MAXM: usize = 6;
+
+// ---------------------------------------------------------------- evaluation counter (extern fn)
 
 static TICKS: [AtomicU64; 8] = [
     AtomicU64::new(0),
@@ -29,29 +52,93 @@ fn ticks(i: VmInt, n: VmInt) -> String {
     TICKS[(i as usize) & 7].fetch_add(1, Ordering::SeqCst);
     format!("s{}", n)
 }
+fn take_ticks() -> [u64; 8] {
+    let mut r = [0u64; 8];
+    for i in 0..8 {
+        r[i] = TICKS[i].swap(0, Ordering::SeqCst);
+    }
+    r
+}
 
-fn new_vm() -> gluon::RootedThread {
-    let vm = gluon::VmBuilder::new().build();
+fn runtime() -> &'static tokio::runtime::Runtime {
+    static RT: std::sync::OnceLock<tokio::runtime::Runtime> = std::sync::OnceLock::new();
+    RT.get_or_init(|| tokio::runtime::Builder::new_multi_thread().worker_threads(3).enable_all().build().expect("tokio runtime"))
+}
+
+fn new_vm(is_async: bool) -> gluon::RootedThread {
+    let vm = if is_async { runtime().block_on(gluon::VmBuilder::new().build_async()) } else { gluon::VmBuilder::new().build() };
     vm.get_database_mut().implicit_prelude(false);
     gluon::import::add_extern_module(&vm, "c15tick", |t: &Thread| ExternModule::new(t, primitive!(1, tick)));
     gluon::import::add_extern_module(&vm, "c15ticks", |t: &Thread| ExternModule::new(t, primitive!(2, ticks)));
     vm
 }
 
-#[derive(Clone, Debug, PartialEq)]
+// ---------------------------------------------------------------- histories
+
+#[derive(Clone, Debug, PartialEq, Eq, Hash)]
 struct Src {
     imports: Vec<usize>,
     is_str: bool,
     n: i64,
 }
 
+#[derive(Clone, Debug, PartialEq)]
+enum Op {
+    Set(usize, Src),
+    Eval(usize),
+    Load(usize, Src),
+    /// marker (first op): run this history on a VM built with `build_async` (tokio spawner: the
+    /// import! macro then loads modules in spawned tasks) through the `*_async` entry points
+    Async,
+}
+
+fn src_text(s: &Src) -> String {
+    let imps = s.imports.iter().map(|i| i.to_string()).collect::<Vec<_>>().join(",");
+    format!("{} {} {}", if s.is_str { "S" } else { "I" }, s.n, imps).trim_end().to_string()
+}
+fn op_text(o: &Op) -> String {
+    match o {
+        Op::Set(m, s) => format!("set {} {}", m, src_text(s)),
+        Op::Eval(m) => format!("eval {}", m),
+        Op::Load(m, s) => format!("load {} {}", m, src_text(s)),
+        Op::Async => "async".to_string(),
+    }
+}
+fn history_text(h: &[Op]) -> String {
+    h.iter().map(op_text).collect::<Vec<_>>().join("|")
+}
+fn parse_history(line: &str) -> Vec<Op> {
+    let mut out = vec![];
+    for o in line.split('|') {
+        let w: Vec<&str> = o.split_whitespace().collect();
+        if w.is_empty() {
+            continue;
+        }
+        if w[0] == "async" {
+            out.push(Op::Async);
+            continue;
+        }
+        let m: usize = w[1].parse().expect("module index");
+        assert!(m >= 1 && m <= MAXM, "module index out of range");
+        let src = || Src {
+            is_str: w[2] == "S",
+            n: w[3].parse().expect("number"),
+            imports: if w.len() > 4 { w[4].split(',').filter(|x| !x.is_empty()).map(|x| x.parse().expect("import")).collect() } else { vec![] },
+        };
+        match w[0] {
+            "set" => out.push(Op::Set(m, src())),
+            "load" => out.push(Op::Load(m, src())),
+            "eval" => out.push(Op::Eval(m)),
+            x => panic!("bad op {}", x),
+        }
+    }
+    out
+}
+
+/// The Gluon text of module m (no implicit prelude; `#Int+` is the primitive addition).
 fn render(m: usize, s: &Src) -> String {
     let mut t = String::new();
-    if s.is_str {
-        t.push_str("let tick = import! c15ticks\n");
-    } else {
-        t.push_str("let tick = import! c15tick\n");
-    }
+    t.push_str(if s.is_str { "let tick = import! c15ticks\n" } else { "let tick = import! c15tick\n" });
     for i in &s.imports {
         t.push_str(&format!("let d{} = import! c15.m{}\n", i, i));
     }
@@ -67,80 +154,804 @@ fn render(m: usize, s: &Src) -> String {
     t
 }
 
-fn set(vm: &Thread, m: usize, s: &Src) {
-    vm.get_database_mut().add_module(format!("c15.m{}", m), &render(m, s));
-}
+// ---------------------------------------------------------------- running the implementation
 
-fn eval(vm: &Thread, m: usize) -> String {
-    let r = vm.run_expr::<OpaqueValue<&Thread, Hole>>("c15top", &format!("import! c15.m{}", m));
+type State = Vec<Option<Src>>; // index 1..=MAXM
+
+fn raw_eval(vm: &Thread, m: usize, is_async: bool) -> Result<String, String> {
+    let r = std::panic::catch_unwind(std::panic::AssertUnwindSafe(|| {
+        let src = format!("import! c15.m{}", m);
+        if is_async {
+            runtime().block_on(vm.run_expr_async::<OpaqueValue<&Thread, Hole>>("c15top", &src))
+        } else {
+            vm.run_expr::<OpaqueValue<&Thread, Hole>>("c15top", &src)
+        }
+    }));
     match r {
-        Ok((v, t)) => match v.get_ref() {
-            ValueRef::Int(i) => format!("int {} : {}", i, t),
-            ValueRef::String(s) => format!("str {} : {}", s, t),
-            _ => format!("other : {}", t),
-        },
-        Err(e) => format!("ERR {}", e.to_string().replace('\n', " | ")),
+        Ok(Ok((v, _t))) => Ok(match v.get_ref() {
+            ValueRef::Int(i) => format!("i{}", i),
+            ValueRef::String(s) => s.to_string(),
+            _ => "other-value".to_string(),
+        }),
+        Ok(Err(e)) => Err(e.to_string()),
+        Err(_) => Err("PANIC in run_expr".to_string()),
     }
 }
 
-fn take_ticks() -> String {
-    let mut s = String::new();
-    for i in 1..7 {
-        let k = TICKS[i].swap(0, Ordering::SeqCst);
-        if k > 0 {
-            s.push_str(&format!(" m{}x{}", i, k));
+fn raw_load(vm: &Thread, m: usize, s: &Src, is_async: bool) -> Result<String, String> {
+    let r = std::panic::catch_unwind(std::panic::AssertUnwindSafe(|| {
+        let (file, text) = (format!("c15/m{}.glu", m), render(m, s));
+        if is_async { runtime().block_on(vm.load_script_async(&file, &text)) } else { vm.load_script(&file, &text) }
+    }));
+    match r {
+        Ok(Ok(())) => Ok("ok".to_string()),
+        Ok(Err(e)) => Err(e.to_string()),
+        Err(_) => Err("PANIC in load_script".to_string()),
+    }
+}
+
+fn mod_index(name: &str) -> Option<usize> {
+    name.trim().strip_prefix("c15.m").and_then(|k| k.parse().ok())
+}
+
+/// Cycle chains named by an error message (`a -> b -> a`).
+fn chains_of(msg: &str) -> Vec<Vec<String>> {
+    let pat = "occurs in a cyclic dependency: `";
+    let mut out = vec![];
+    let mut rest = msg;
+    while let Some(p) = rest.find(pat) {
+        let after = &rest[p + pat.len()..];
+        let end = after.find('`').unwrap_or(after.len());
+        out.push(after[..end].split(" -> ").map(|s| s.trim().to_string()).collect());
+        rest = &after[end..];
+    }
+    out
+}
+
+/// Canonical result class of an error message: `cyc` | `fail[M..;T..]` | `other:..`.
+fn canon_err(msg: &str) -> String {
+    if msg.contains("occurs in a cyclic dependency") {
+        return "cyc".to_string();
+    }
+    let mut missing = std::collections::BTreeSet::new();
+    let mut tyerr = std::collections::BTreeSet::new();
+    let mut pending_type = false;
+    let mut unknown = false;
+    for line in msg.lines() {
+        if let Some(p) = line.find("Could not find module '") {
+            let after = &line[p + "Could not find module '".len()..];
+            let name = &after[..after.find('\'').unwrap_or(after.len())];
+            match mod_index(name) {
+                Some(k) => {
+                    missing.insert(k);
+                }
+                None => unknown = true,
+            }
+            pending_type = false;
+        } else if line.contains("Expected the following types to be equal") {
+            pending_type = true;
+        } else if let Some(p) = line.find("┌─ ") {
+            if pending_type {
+                let loc = &line[p + "┌─ ".len()..];
+                let file = loc.split(':').next().unwrap_or("");
+                match mod_index(file) {
+                    Some(k) => {
+                        tyerr.insert(k);
+                    }
+                    None => unknown = true,
+                }
+                pending_type = false;
+            }
         }
     }
-    s
+    if unknown || (missing.is_empty() && tyerr.is_empty()) {
+        let flat: String = msg.replace('\n', " ").chars().take(160).collect();
+        return format!("other:{}", flat.replace('|', "/"));
+    }
+    let j = |s: &std::collections::BTreeSet<usize>| s.iter().map(|k| k.to_string()).collect::<Vec<_>>().join(",");
+    format!("fail[M{};T{}]", j(&missing), j(&tyerr))
 }
+
+fn canon_res(r: &Result<String, String>, as_load: bool) -> String {
+    match r {
+        Ok(v) => {
+            if as_load {
+                "ok".to_string()
+            } else {
+                v.clone()
+            }
+        }
+        Err(e) => canon_err(e),
+    }
+}
+
+fn ran_text(t: &[u64; 8]) -> String {
+    let mut v = vec![];
+    for k in 1..=MAXM {
+        if t[k] == 1 {
+            v.push(k.to_string());
+        } else if t[k] > 1 {
+            v.push(format!("{}x{}", k, t[k]));
+        }
+    }
+    v.join(",")
+}
+
+fn edge(st: &State, a: usize, b: usize) -> bool {
+    st.get(a).and_then(|s| s.as_ref()).map_or(false, |s| s.imports.contains(&b))
+}
+fn reaches(st: &State, a: usize, b: usize) -> bool {
+    // non-empty path a ->+ b
+    let mut seen = vec![false; MAXM + 2];
+    let mut stack: Vec<usize> = st.get(a).and_then(|s| s.as_ref()).map_or(vec![], |s| s.imports.clone());
+    while let Some(x) = stack.pop() {
+        if x == b {
+            return true;
+        }
+        if x > MAXM || seen[x] {
+            continue;
+        }
+        seen[x] = true;
+        if let Some(Some(s)) = st.get(x) {
+            stack.extend(s.imports.iter().cloned());
+        }
+    }
+    false
+}
+
+/// None: the chain is a genuine import cycle of the current sources.  Some(kind) otherwise.
+fn check_chain(st: &State, chain: &[String]) -> Option<&'static str> {
+    let idx: Vec<Option<usize>> = chain.iter().map(|n| mod_index(n)).collect();
+    if idx.iter().any(|i| i.is_none()) || idx.len() < 2 {
+        return Some("cycle-chain-wrong");
+    }
+    let idx: Vec<usize> = idx.into_iter().map(|i| i.unwrap()).collect();
+    let closed = idx.first() == idx.last();
+    let linked = idx.windows(2).all(|w| edge(st, w[0], w[1]));
+    if closed && linked {
+        return None;
+    }
+    // every named module lies on one common import cycle, but members are left out
+    let on_common_cycle = idx.iter().all(|a| idx.iter().all(|b| reaches(st, *a, *b)));
+    if closed && on_common_cycle { Some("cycle-chain-incomplete") } else { Some("cycle-chain-wrong") }
+}
+
+struct HistoryOutcome {
+    line: String,
+    violations: Vec<serde_json::Value>,
+    evals: u64,
+    classes: Vec<String>,
+}
+
+fn run_history(h: &[Op], verbose: bool) -> HistoryOutcome {
+    let is_async = h.first() == Some(&Op::Async);
+    let vm = new_vm(is_async);
+    let mut st: State = vec![None; MAXM + 1];
+    let mut window = [0u64; 8]; // body evaluations since the last change of any source
+    let mut segs = vec![];
+    let mut violations = vec![];
+    let mut evals = 0u64;
+    let mut classes = vec![];
+    for (step, op) in h.iter().enumerate() {
+        let (m, as_load) = match op {
+            Op::Set(m, s) | Op::Load(m, s) => {
+                if st[*m].as_ref() != Some(s) {
+                    window = [0; 8];
+                }
+                st[*m] = Some(s.clone());
+                if let Op::Set(..) = op {
+                    vm.get_database_mut().add_module(format!("c15.m{}", m), &render(*m, s));
+                    if verbose {
+                        println!("step {}: {}", step, op_text(op));
+                    }
+                    continue;
+                }
+                (*m, true)
+            }
+            Op::Eval(m) => (*m, false),
+            Op::Async => continue,
+        };
+        evals += 1;
+        take_ticks();
+        let r = match op {
+            Op::Load(m, s) => raw_load(&vm, *m, s, is_async),
+            _ => raw_eval(&vm, m, is_async),
+        };
+        let t = take_ticks();
+        // the property: a fresh VM given the latest sources
+        let fresh = new_vm(is_async);
+        for k in 1..=MAXM {
+            if let Some(s) = &st[k] {
+                fresh.get_database_mut().add_module(format!("c15.m{}", k), &render(k, s));
+            }
+        }
+        let rf = raw_eval(&fresh, m, is_async);
+        let tf = take_ticks();
+        drop(fresh);
+        let cl = canon_res(&r, as_load);
+        let cf = canon_res(&rf, as_load);
+        if verbose {
+            println!("step {}: {}", step, op_text(op));
+            println!("   long-lived VM: {} ran[{}]   raw: {:?}", cl, ran_text(&t), r);
+            println!("   fresh VM     : {} ran[{}]   raw: {:?}", cf, ran_text(&tf), rf);
+        }
+        classes.push(
+            if cl.starts_with("fail") {
+                "fail"
+            } else if cl.starts_with("other") {
+                "other"
+            } else if cl == "cyc" {
+                "cyc"
+            } else {
+                "value"
+            }
+            .to_string(),
+        );
+        if cl != cf {
+            violations.push(serde_json::json!({"kind": "stale", "step": step, "op": op_text(op), "long_lived": cl, "fresh_vm": cf,
+                "long_lived_raw": format!("{:?}", r), "fresh_raw": format!("{:?}", rf)}));
+        }
+        for k in 1..=MAXM {
+            window[k] += t[k];
+            if t[k] > 1 || window[k] > 1 {
+                violations.push(serde_json::json!({"kind": "evaluated-twice", "step": step, "op": op_text(op), "module": k,
+                    "in_this_evaluation": t[k], "since_last_edit": window[k]}));
+            }
+            if tf[k] > 1 {
+                violations.push(serde_json::json!({"kind": "evaluated-twice", "step": step, "op": op_text(op), "module": k,
+                    "in_this_evaluation": tf[k], "vm": "fresh"}));
+            }
+        }
+        for (which, res) in [("long-lived", &r), ("fresh", &rf)] {
+            if let Err(e) = res {
+                for c in chains_of(e) {
+                    if let Some(kind) = check_chain(&st, &c) {
+                        violations.push(serde_json::json!({"kind": kind, "step": step, "op": op_text(op), "vm": which, "chain": c.join(" -> ")}));
+                    }
+                }
+                if e.starts_with("PANIC") {
+                    violations.push(serde_json::json!({"kind": "panic", "step": step, "op": op_text(op), "vm": which}));
+                }
+            }
+        }
+        segs.push(format!("{}{} L={}/{} F={}/{}", if as_load { "l" } else { "e" }, m, cl, ran_text(&t), cf, ran_text(&tf)));
+    }
+    HistoryOutcome { line: segs.join(" | "), violations, evals, classes }
+}
+
+// ---------------------------------------------------------------- child process
+
+fn child_main(args: &Args) {
+    let file = args.extra.get("file").expect("file=");
+    let start: usize = args.extra.get("start").and_then(|s| s.parse().ok()).unwrap_or(0);
+    let end: usize = args.extra.get("end").and_then(|s| s.parse().ok()).unwrap_or(usize::MAX);
+    let f = std::io::BufReader::new(std::fs::File::open(file).expect("cases file"));
+    let out = std::io::stdout();
+    for (i, line) in f.lines().enumerate() {
+        if i < start {
+            continue;
+        }
+        if i >= end {
+            break;
+        }
+        let line = line.unwrap();
+        {
+            let mut o = out.lock();
+            writeln!(o, "S\t{}", i).unwrap();
+            o.flush().unwrap();
+        }
+        if std::env::var("C15_SELFTEST_HANG").ok().and_then(|s| s.parse::<usize>().ok()) == Some(i) {
+            loop {
+                std::thread::sleep(std::time::Duration::from_secs(1));
+            }
+        }
+        if std::env::var("C15_SELFTEST_CRASH").ok().and_then(|s| s.parse::<usize>().ok()) == Some(i) {
+            std::process::abort();
+        }
+        let h = parse_history(&line);
+        let r = run_history(&h, false);
+        let mut o = out.lock();
+        writeln!(
+            o,
+            "R\t{}\t{}\t{}\t{}\t{}",
+            i,
+            r.line,
+            serde_json::to_string(&r.violations).unwrap(),
+            r.evals,
+            r.classes.join(",")
+        )
+        .unwrap();
+        o.flush().unwrap();
+    }
+}
+
+// ---------------------------------------------------------------- generators
+
+fn all_sources(m: usize, others: &[usize], with_self: bool, kinds: &[bool], nums: &[i64], max_imports: usize) -> Vec<Src> {
+    let mut pool: Vec<usize> = others.to_vec();
+    if with_self {
+        pool.push(m);
+    }
+    pool.sort();
+    let mut out = vec![];
+    for mask in 0..(1u32 << pool.len()) {
+        if mask.count_ones() as usize > max_imports {
+            continue;
+        }
+        let imports: Vec<usize> = (0..pool.len()).filter(|i| mask & (1 << i) != 0).map(|i| pool[i]).collect();
+        for &k in kinds {
+            for &n in nums {
+                out.push(Src { imports: imports.clone(), is_str: k, n });
+            }
+        }
+    }
+    out
+}
+
+/// All histories over `alphabet` of length 1..=maxlen that end in an evaluation.
+fn exhaustive(alphabet: &[Op], maxlen: usize, out: &mut Vec<(Vec<Op>, &'static str)>, family: &'static str) {
+    let evals: Vec<&Op> = alphabet.iter().filter(|o| matches!(o, Op::Eval(_))).collect();
+    let n = alphabet.len();
+    for len in 1..=maxlen {
+        let total = n.pow((len - 1) as u32);
+        for code in 0..total {
+            let mut c = code;
+            let mut h = vec![];
+            for _ in 0..len - 1 {
+                h.push(alphabet[c % n].clone());
+                c /= n;
+            }
+            for e in &evals {
+                let mut hh = h.clone();
+                hh.push((*e).clone());
+                out.push((hh, family));
+            }
+        }
+    }
+}
+
+fn on_cycle_edges(st: &State) -> Vec<(usize, usize)> {
+    let mut v = vec![];
+    for a in 1..=MAXM {
+        if let Some(s) = &st[a] {
+            for &b in &s.imports {
+                if b == a || reaches(st, b, a) {
+                    v.push((a, b));
+                }
+            }
+        }
+    }
+    v
+}
+
+fn random_history(rng: &mut Rng, nmods: usize, steps: usize, hist: &mut Hist) -> Vec<Op> {
+    let mut st: State = vec![None; MAXM + 1];
+    let mut h = vec![];
+    let mods: Vec<usize> = (1..=nmods).collect();
+    let fresh_src = |rng: &mut Rng, m: usize, st: &State, acyclic: bool| -> Src {
+        let mut imports = vec![];
+        for &o in &mods {
+            if o != m && rng.chance(1, 3) {
+                // acyclic: only import modules that do not reach m
+                if acyclic && reaches(st, o, m) {
+                    continue;
+                }
+                imports.push(o);
+            }
+        }
+        Src { imports, is_str: rng.chance(1, 5), n: rng.range(0, 9) }
+    };
+    // setup: an initial graph over a random subset (possibly empty: evaluation of missing modules)
+    let ndef = if rng.chance(3, 4) { nmods - (rng.below(3) as usize).min(nmods) } else { rng.below(nmods as u64 + 1) as usize };
+    let mut order = mods.clone();
+    for i in (1..order.len()).rev() {
+        let j = rng.below(i as u64 + 1) as usize;
+        order.swap(i, j);
+    }
+    for &m in order.iter().take(ndef) {
+        let acyclic = rng.chance(4, 5);
+        let s = fresh_src(rng, m, &st, acyclic);
+        st[m] = Some(s.clone());
+        h.push(Op::Set(m, s));
+    }
+    hist.add(&format!("setup-defined:{}", ndef));
+    let mut n = 0;
+    let mut guard = 0;
+    while n < steps && guard < 1000 {
+        guard += 1;
+        let m = *rng.pick(&mods);
+        let roll = rng.below(100);
+        let as_load = rng.chance(1, 8);
+        let edit = |h: &mut Vec<Op>, st: &mut State, m: usize, s: Src, kind: &str, hist: &mut Hist| {
+            hist.add(&format!("op:{}{}", kind, if as_load { "(load_script)" } else { "" }));
+            st[m] = Some(s.clone());
+            h.push(if as_load { Op::Load(m, s) } else { Op::Set(m, s) });
+        };
+        if roll < 42 || n + 1 == steps {
+            hist.add("op:eval");
+            h.push(Op::Eval(m));
+        } else if st[m].is_none() {
+            let acyclic = rng.chance(3, 4);
+            let s = fresh_src(rng, m, &st, acyclic);
+            edit(&mut h, &mut st, m, s, "add-module", hist);
+        } else {
+            let cur = st[m].clone().unwrap();
+            let mut s = cur.clone();
+            if roll < 52 {
+                s.n = (cur.n + 1 + rng.range(0, 7)) % 10;
+                edit(&mut h, &mut st, m, s, "change-value", hist);
+            } else if roll < 62 {
+                s.is_str = !cur.is_str;
+                edit(&mut h, &mut st, m, s, "change-type", hist);
+            } else if roll < 72 {
+                let cands: Vec<usize> = mods.iter().cloned().filter(|o| *o != m && !cur.imports.contains(o)).collect();
+                if cands.is_empty() {
+                    continue;
+                }
+                let o = *rng.pick(&cands);
+                let kind = if reaches(&st, o, m) { "add-edge(closes-cycle)" } else { "add-edge" };
+                s.imports.push(o);
+                s.imports.sort();
+                edit(&mut h, &mut st, m, s, kind, hist);
+            } else if roll < 80 {
+                if cur.imports.is_empty() {
+                    continue;
+                }
+                let i = rng.below(cur.imports.len() as u64) as usize;
+                s.imports.remove(i);
+                edit(&mut h, &mut st, m, s, "remove-edge", hist);
+            } else if roll < 90 {
+                // introduce a cycle: make some module that m reaches (or m itself) import m
+                let cands: Vec<usize> =
+                    mods.iter().cloned().filter(|o| st[*o].is_some() && (*o == m || reaches(&st, m, *o)) && !edge(&st, *o, m)).collect();
+                if cands.is_empty() {
+                    continue;
+                }
+                let o = *rng.pick(&cands);
+                let mut so = st[o].clone().unwrap();
+                so.imports.push(m);
+                so.imports.sort();
+                edit(&mut h, &mut st, o, so, "introduce-cycle", hist);
+            } else {
+                let es = on_cycle_edges(&st);
+                if es.is_empty() {
+                    continue;
+                }
+                let (a, b) = *rng.pick(&es);
+                let mut sa = st[a].clone().unwrap();
+                sa.imports.retain(|x| *x != b);
+                edit(&mut h, &mut st, a, sa, "remove-cycle", hist);
+            }
+        }
+        n += 1;
+    }
+    if !matches!(h.last(), Some(Op::Eval(_)) | Some(Op::Load(..))) {
+        h.push(Op::Eval(*rng.pick(&mods)));
+    }
+    h
+}
+
+fn nontrivial(h: &[Op]) -> bool {
+    // at least two evaluations and an edit after the first one
+    let first = h.iter().position(|o| !matches!(o, Op::Set(..) | Op::Async));
+    match first {
+        None => false,
+        Some(p) => h[p + 1..].iter().any(|o| !matches!(o, Op::Eval(_))) && h.iter().filter(|o| !matches!(o, Op::Set(..) | Op::Async)).count() >= 2,
+    }
+}
+
+// ---------------------------------------------------------------- parent: parallel children + watchdog
+
+struct ChildResult {
+    lines: Vec<Option<String>>,
+    violations: Vec<serde_json::Value>,
+    evals: u64,
+    classes: Hist,
+    restarts: u64,
+}
+
+type WorkerMsg = (Vec<(usize, String)>, Vec<serde_json::Value>, u64, Vec<String>, u64);
+
+fn run_children(cases_path: &std::path::Path, n: usize, workers: usize, timeout_s: u64) -> ChildResult {
+    use std::sync::mpsc;
+    let exe = std::env::current_exe().expect("current_exe");
+    let workers = workers.max(1);
+    // interleaved small blocks so that every worker gets a similar mix of cheap and expensive histories
+    let block = 200usize;
+    let (tx, rx) = mpsc::channel::<WorkerMsg>();
+    let next_block = std::sync::Arc::new(std::sync::atomic::AtomicUsize::new(0));
+    let mut handles = vec![];
+    for _w in 0..workers {
+        let tx = tx.clone();
+        let exe = exe.clone();
+        let cases_path = cases_path.to_path_buf();
+        let next_block = next_block.clone();
+        handles.push(std::thread::spawn(move || {
+            let mut lines = vec![];
+            let mut viols = vec![];
+            let mut evals = 0u64;
+            let mut classes = vec![];
+            let mut restarts = 0u64;
+            loop {
+                let b = next_block.fetch_add(1, Ordering::SeqCst);
+                let lo = b * block;
+                if lo >= n {
+                    break;
+                }
+                let hi = (lo + block).min(n);
+                let mut next = lo;
+                while next < hi {
+                    let mut child = std::process::Command::new(&exe)
+                        .arg("child")
+                        .arg(format!("file={}", cases_path.display()))
+                        .arg(format!("start={}", next))
+                        .arg(format!("end={}", hi))
+                        .stdout(std::process::Stdio::piped())
+                        .stderr(std::process::Stdio::null())
+                        .spawn()
+                        .expect("spawn child");
+                    let stdout = child.stdout.take().unwrap();
+                    let (ltx, lrx) = mpsc::channel::<String>();
+                    let reader = std::thread::spawn(move || {
+                        for l in std::io::BufReader::new(stdout).lines() {
+                            match l {
+                                Ok(l) => {
+                                    if ltx.send(l).is_err() {
+                                        break;
+                                    }
+                                }
+                                Err(_) => break,
+                            }
+                        }
+                    });
+                    let mut current: Option<usize> = None;
+                    let mut failed: Option<&'static str> = None;
+                    loop {
+                        match lrx.recv_timeout(std::time::Duration::from_secs(timeout_s)) {
+                            Ok(l) => {
+                                let parts: Vec<&str> = l.split('\t').collect();
+                                if parts[0] == "S" {
+                                    current = parts[1].parse().ok();
+                                } else if parts[0] == "R" && parts.len() >= 6 {
+                                    let i: usize = parts[1].parse().unwrap();
+                                    lines.push((i, parts[2].to_string()));
+                                    let vs: Vec<serde_json::Value> = serde_json::from_str(parts[3]).unwrap_or_default();
+                                    for mut v in vs {
+                                        v["history_index"] = serde_json::json!(i);
+                                        viols.push(v);
+                                    }
+                                    evals += parts[4].parse::<u64>().unwrap_or(0);
+                                    classes.extend(parts[5].split(',').filter(|s| !s.is_empty()).map(|s| s.to_string()));
+                                    next = i + 1;
+                                    current = None;
+                                }
+                            }
+                            Err(mpsc::RecvTimeoutError::Timeout) => {
+                                failed = Some("hang");
+                                break;
+                            }
+                            Err(mpsc::RecvTimeoutError::Disconnected) => {
+                                if current.is_some() {
+                                    failed = Some("crash");
+                                }
+                                break;
+                            }
+                        }
+                    }
+                    let _ = child.kill();
+                    let status = child.wait().ok();
+                    let _ = reader.join();
+                    match failed {
+                        Some(kind) => {
+                            let i = current.unwrap_or(next);
+                            lines.push((i, format!("<{}>", kind)));
+                            viols.push(serde_json::json!({"kind": kind, "history_index": i, "exit": format!("{:?}", status)}));
+                            next = i + 1;
+                            restarts += 1;
+                        }
+                        None => {
+                            if next < hi {
+                                // the child ended without reporting the remaining histories
+                                lines.push((next, "<crash>".to_string()));
+                                viols.push(serde_json::json!({"kind": "crash", "history_index": next, "exit": format!("{:?}", status)}));
+                                next += 1;
+                                restarts += 1;
+                            }
+                        }
+                    }
+                }
+            }
+            tx.send((lines, viols, evals, classes, restarts)).unwrap();
+        }));
+    }
+    drop(tx);
+    let mut res = ChildResult { lines: vec![None; n], violations: vec![], evals: 0, classes: Hist::default(), restarts: 0 };
+    for (lines, viols, evals, classes, restarts) in rx {
+        for (i, l) in lines {
+            res.lines[i] = Some(l);
+        }
+        res.violations.extend(viols);
+        res.evals += evals;
+        for c in classes {
+            res.classes.add(&format!("result:{}", c));
+        }
+        res.restarts += restarts;
+    }
+    for h in handles {
+        let _ = h.join();
+    }
+    res.violations.sort_by_key(|v| v["history_index"].as_u64().unwrap_or(0));
+    res
+}
+
+// ---------------------------------------------------------------- main
 
 fn main() {
-    let args: Vec<String> = std::env::args().skip(1).collect();
-    if args.iter().any(|a| a == "bench") {
-        let t0 = std::time::Instant::now();
-        for k in 0..200 {
-            let vm = new_vm();
-            set(&vm, 1, &Src { imports: vec![2], is_str: false, n: k });
-            set(&vm, 2, &Src { imports: vec![], is_str: false, n: k });
-            let r = eval(&vm, 1);
-            if k == 0 { println!("{}", r); }
-        }
-        println!("200 fresh VMs + eval: {:?}", t0.elapsed());
-        let t0 = std::time::Instant::now();
-        for _ in 0..200 { let _vm = new_vm(); }
-        println!("200 VM builds: {:?}", t0.elapsed());
+    let args = Args::parse();
+    if args.rest.iter().any(|a| a == "child") {
+        child_main(&args);
         return;
     }
-    let use_async = args.iter().any(|a| a == "async");
-    let rt = tokio::runtime::Builder::new_multi_thread().worker_threads(2).enable_all().build().unwrap();
-    let vm = if use_async {
-        let vm = rt.block_on(gluon::VmBuilder::new().build_async());
-        vm.get_database_mut().implicit_prelude(false);
-        gluon::import::add_extern_module(&vm, "c15tick", |t: &Thread| ExternModule::new(t, primitive!(1, tick)));
-        gluon::import::add_extern_module(&vm, "c15ticks", |t: &Thread| ExternModule::new(t, primitive!(2, ticks)));
-        vm
-    } else { new_vm() };
-    let script = args.iter().filter(|a| *a != "async").cloned().collect::<Vec<_>>().join(" ");
-    for op in script.split(';') {
-        let w: Vec<&str> = op.split_whitespace().collect();
-        if w.is_empty() { continue; }
-        let t0 = std::time::Instant::now();
-        let m: usize = w[1].parse().unwrap();
-        let src = if w.len() > 3 { Some(Src { is_str: w[2] == "S", n: w[3].parse().unwrap(), imports: if w.len() > 4 { w[4].split(',').map(|x| x.parse().unwrap()).collect() } else { vec![] } }) } else { None };
-        match w[0] {
-            "set" => { set(&vm, m, src.as_ref().unwrap()); println!("{}", op); }
-            "load" => {
-                let r = if use_async { rt.block_on(vm.load_script_async(&format!("c15/m{}.glu", m), &render(m, src.as_ref().unwrap()))) } else { vm.load_script(&format!("c15/m{}.glu", m), &render(m, src.as_ref().unwrap())) };
-                println!("{} -> {}  ticks:{}", op, match r { Ok(()) => "ok".to_string(), Err(e) => e.to_string().replace('\n', " | ") }, take_ticks());
-            }
-            _ => {
-                let r = if use_async {
-                    let r = rt.block_on(vm.run_expr_async::<OpaqueValue<&Thread, Hole>>("c15top", &format!("import! c15.m{}", m)));
-                    match r { Ok((v, t)) => match v.get_ref() { ValueRef::Int(i) => format!("int {} : {}", i, t), ValueRef::String(s) => format!("str {} : {}", s, t), _ => format!("other : {}", t) }, Err(e) => format!("ERR {}", e.to_string().replace('\n', " | ")) }
-                } else { eval(&vm, m) };
-                let r: String = r.split(" | ").filter(|l| l.contains("rror") || l.contains("int ") || l.contains("str ") || l.contains("Expected") || l.contains("Found")).collect::<Vec<_>>().join(" | ");
-                println!("eval m{} -> {}   ticks:{}   [{:?}]", m, r, take_ticks(), t0.elapsed());
+    if let Some(path) = &args.replay {
+        let v: serde_json::Value = serde_json::from_str(&std::fs::read_to_string(path).expect("replay file")).expect("json");
+        let text = v["case"]["history"].as_str().expect("case.history").to_string();
+        println!("history: {}", text);
+        let r = run_history(&parse_history(&text), true);
+        println!("impl: {}", r.line);
+        println!("expected(model): {}", v["expected"].as_str().unwrap_or("?"));
+        println!("violations: {}", serde_json::to_string_pretty(&r.violations).unwrap());
+        return;
+    }
+    if let Some(text) = args.extra.get("history") {
+        // ad-hoc: c15 "history=set 1 I 1|eval 1"
+        let r = run_history(&parse_history(text), true);
+        println!("impl: {}", r.line);
+        println!("violations: {}", serde_json::to_string_pretty(&r.violations).unwrap());
+        return;
+    }
+    let t0 = std::time::Instant::now();
+    let thorough = args.thorough();
+    let mut hist = Hist::default();
+    let mut all: Vec<(Vec<Op>, &'static str)> = vec![];
+
+    // corpus first
+    let corpus_dir = std::path::Path::new(env!("CARGO_MANIFEST_DIR")).join("../corpus/C15");
+    if let Ok(rd) = std::fs::read_dir(&corpus_dir) {
+        let mut files: Vec<_> = rd.filter_map(|e| e.ok()).map(|e| e.path()).collect();
+        files.sort();
+        for f in files {
+            if let Ok(text) = std::fs::read_to_string(&f) {
+                for line in text.lines() {
+                    let line = line.trim();
+                    if line.is_empty() || line.starts_with('#') {
+                        continue;
+                    }
+                    all.push((parse_history(line), "corpus"));
+                }
             }
         }
     }
+
+    // Family A: exhaustive, 2 modules; sources: imports in {[], [other]} x {Int, String} x {1, 2}.
+    let len2: usize = args.extra.get("len2").and_then(|s| s.parse().ok()).unwrap_or(if thorough { 5 } else { 4 });
+    {
+        let mut alphabet = vec![];
+        for m in 1..=2usize {
+            let other = 3 - m;
+            for s in all_sources(m, &[other], false, &[false, true], &[1, 2], 1) {
+                alphabet.push(Op::Set(m, s));
+            }
+        }
+        alphabet.push(Op::Eval(1));
+        alphabet.push(Op::Eval(2));
+        exhaustive(&alphabet, len2, &mut all, "exhaustive-2mod");
+    }
+    // Family B: exhaustive, 2 modules with self-imports and load_script, shorter.
+    let len2b: usize = if thorough { 4 } else { 3 };
+    {
+        let mut alphabet = vec![];
+        for m in 1..=2usize {
+            let other = 3 - m;
+            for s in all_sources(m, &[other], true, &[false, true], &[1], 2) {
+                alphabet.push(Op::Set(m, s.clone()));
+                if s.imports.len() <= 1 && !s.imports.contains(&m) {
+                    alphabet.push(Op::Load(m, s));
+                }
+            }
+        }
+        alphabet.push(Op::Eval(1));
+        alphabet.push(Op::Eval(2));
+        exhaustive(&alphabet, len2b, &mut all, "exhaustive-2mod-self-load");
+    }
+    // Family C: exhaustive, 3 modules; sources: any subset of the other two x {Int, String}, number 1.
+    let len3: usize = args.extra.get("len3").and_then(|s| s.parse().ok()).unwrap_or(if thorough { 4 } else { 3 });
+    {
+        let mut alphabet = vec![];
+        for m in 1..=3usize {
+            let others: Vec<usize> = (1..=3).filter(|o| *o != m).collect();
+            for s in all_sources(m, &others, false, &[false, true], &[1], 2) {
+                alphabet.push(Op::Set(m, s));
+            }
+        }
+        for m in 1..=3 {
+            alphabet.push(Op::Eval(m));
+        }
+        exhaustive(&alphabet, len3, &mut all, "exhaustive-3mod");
+    }
+    let n_exhaustive = all.len();
+    // Family D: random histories, 3..6 modules, initial graph + up to 6 (quick) / 8 (thorough) steps.
+    let nrand: usize = args.extra.get("random").and_then(|s| s.parse().ok()).unwrap_or(if thorough { 60000 } else { 6000 });
+    let maxsteps = if thorough { 8 } else { 6 };
+    let mut rng = Rng::new(args.seed);
+    for _ in 0..nrand {
+        let nmods = 3 + rng.below(4) as usize;
+        let steps = 2 + rng.below(maxsteps as u64 - 1) as usize;
+        let mut h = random_history(&mut rng, nmods, steps, &mut hist);
+        hist.add(&format!("random-modules:{}", nmods));
+        hist.add(&format!("random-steps:{}", steps));
+        if rng.chance(1, 4) {
+            h.insert(0, Op::Async);
+            all.push((h, "random-async-vm"));
+        } else {
+            all.push((h, "random"));
+        }
+    }
+
+    let mut model_in = args.file("model_in.txt");
+    let mut model_in_asis = args.file("model_in_asis.txt");
+    let mut cases = args.file("cases.txt");
+    let mut distinct = std::collections::HashSet::new();
+    let mut n_nontrivial = 0u64;
+    for (h, fam) in &all {
+        let t = history_text(h);
+        writeln!(model_in, "spec|{}", t).unwrap();
+        writeln!(model_in_asis, "asis|{}", t).unwrap();
+        writeln!(cases, "{}", t).unwrap();
+        hist.add(&format!("family:{}", fam));
+        hist.add(&format!("ops:{}", h.len().min(16)));
+        if nontrivial(h) && distinct.insert(fnv(t.as_bytes())) {
+            n_nontrivial += 1;
+        }
+    }
+    model_in.flush().unwrap();
+    model_in_asis.flush().unwrap();
+    cases.flush().unwrap();
+    drop(cases);
+
+    let workers: usize = args
+        .extra
+        .get("workers")
+        .and_then(|s| s.parse().ok())
+        .unwrap_or_else(|| std::thread::available_parallelism().map(|n| n.get()).unwrap_or(4).min(12));
+    let timeout_s: u64 = args.extra.get("timeout").and_then(|s| s.parse().ok()).unwrap_or(30);
+    let res = run_children(&args.out.join("cases.txt"), all.len(), workers, timeout_s);
+
+    let mut impl_out = args.file("impl_out.txt");
+    for l in &res.lines {
+        writeln!(impl_out, "{}", l.clone().unwrap_or_else(|| "<missing>".to_string())).unwrap();
+    }
+    impl_out.flush().unwrap();
+    for (k, v) in &res.classes.0 {
+        hist.addn(k, *v);
+    }
+    for v in &res.violations {
+        hist.add(&format!("violation:{}", v["kind"].as_str().unwrap_or("?")));
+    }
+    gvh::out::write_json(&args.out.join("violations.json"), &serde_json::json!(res.violations));
+    gvh::out::write_json(
+        &args.out.join("stats.json"),
+        &serde_json::json!({
+            "evaluations": res.evals,
+            "histories": all.len(),
+            "exhaustive_histories": n_exhaustive,
+            "distinct_nontrivial": n_nontrivial,
+            "rule": "histories (edit / evaluate / load_script) over module graphs; non-trivial = at least two evaluations and at least one edit after the first evaluation, distinct by text; every evaluation is also run on a fresh VM",
+            "exhaustive_bound": format!("2 modules (imports in {{[],[other]}} x Int/String x numbers 1,2): all histories of length <= {} ending in an evaluation; 2 modules with self-imports and load_script: length <= {}; 3 modules (imports any subset of the others x Int/String): length <= {}", len2, len2b, len3),
+            "random_histories": nrand,
+            "child_restarts": res.restarts,
+            "workers": workers,
+            "harness_wall_s": t0.elapsed().as_secs_f64(),
+            "hist": hist.to_json(),
+        }),
+    );
 }
